@@ -355,6 +355,10 @@ class PeerWrite(Op):
         r = random.Random(op["seed"])
         snap = snapshot(w, op["from"], writer="peer")
         style = op.get("style", {})
+        if style.get("permute_modules"):
+            # module order is list order: the peer emits its own order and expects it back
+            r.shuffle(snap["nodes"][snap["ir"]].a["modules"])
+            w.counters["probe:peer_module_order_permuted"] += 1
         if style.get("sweep_enums"):
             w.counters["probe:peer_enum_constants_swept"] += sweep_enums(w, snap, r)
         prepare_aux(w, snap, r, style)
